@@ -430,7 +430,7 @@ Error BaseBuilder::label_node_of(Out<LabelNode*> out, uint32_t label_id) {
 
   uint32_t index = label_id;
   if (ASMJIT_UNLIKELY(index >= _code->label_count())) {
-    return make_error(Error::kInvalidLabel);
+    return report_error(make_error(Error::kInvalidLabel));
   }
 
   if (index >= _label_nodes.size()) {
@@ -532,6 +532,13 @@ Label BaseBuilder::new_named_label(const char* name, size_t name_size, LabelType
 Error BaseBuilder::bind(const Label& label) {
   LabelNode* node;
   ASMJIT_PROPAGATE(label_node_of(Out(node), label));
+  ASMJIT_ASSUME(node != nullptr);
+
+  // A label node that is already part of the code cannot be linked a second time - the assembler would refuse
+  // to bind the same label twice as well, so report the same error here instead of corrupting the node list.
+  if (ASMJIT_UNLIKELY(node->is_active())) {
+    return report_error(make_error(Error::kLabelAlreadyBound));
+  }
 
   add_node(node);
   return Error::kOk;
